@@ -52,7 +52,7 @@ def run_case(case):
         sp = gen.base_spec(r.choice([128, 8192]))
         sp['ops'].append(gen.origin_op())
         sp['ops'].append(gen.channel_op('A', gen.dtstr(case['dtype'], r.choice('<>')), (4,), fill={'kind': 'safe', 'tag': 3},
-                                        cast_dtype={'$dtype': case['cast'], 'as': r.choice(['type', 'dtype'])}))
+                                        cast_dtype={'$dtype': case['cast'], 'as': gen.cast_form(r)}))
         sp['ops'].append(gen.channel_op('B', gen.dtstr(case['dtype'], r.choice('<>')), (4, 3), fill={'kind': 'safe', 'tag': 5},
                                         cast_dtype={'$dtype': case['cast'], 'as': 'dtype'}))
         sp['ops'].append(gen.frame_op('F', [1, 2]))
